@@ -129,14 +129,31 @@ def h_append(l1: int, l2: int, l3: int, k1: int, k2: int, m: int, q: int, probe:
             obj, r = mk_input(forms[i % len(forms)], ks[i], atom, numtype, bo, i + 1)
             items.append(obj)
             model = model + [r]
+    hi = symnp.INT_RANGE[indextype][1]
+    total = 0
+    for l in lens:
+        total = total + l
+    assume(total <= hi)                      # the pre-state is representable in the index type
+    fits = True
+    end = total
+    for i in range(F):
+        if i < m:
+            end = end + ks[i]
+            if end > hi:
+                fits = False
     try:
         if via == 'append':
             ra.append(items[0])
         else:
             ra.iterappend(items)
     except Exception as e:
+        if not fits:
+            reach('overflow-refused')      # an index that does not fit the index type: refusal is C10's subject
+            return
         raise Violation(f'ragged {via} of compatible items raised {type(e).__name__}',
                         msg=holes.symstr(e))
+    if not fits:
+        raise Violation(f'ragged {via} completed although an index does not fit the index type {indextype}')
     check_ragged(w, ra, model, numtype, bo, atom, q, probe, f'after {via}', mode)
     reach('end')
 
@@ -653,6 +670,13 @@ def obligations(tier, mode='api', prop='C04'):
                           for K in range(0, Kmax + 1) for (nt, bo, at) in cfg[:2 if not thorough else 5]
                           for f in (('same', 'cast', 'list') if K == 1 or thorough else ('cast',))],
                   timeout=T, replay='replay_ragged', sym='l1..lK, k1, q, probe', bounds=common_b))
+    obs.append(Ob('R-append-smallindex', 'h_append',
+                  splits=[dict(K=K, F=2, numtype='int16', bo='little', atom=at, via='iterappend', forms=('same', 'cast'),
+                               indextype=it, mode=mode, _must=('end', 'overflow-refused'))
+                          for K in (0, 1) for (it, at) in [('int8', ()), ('uint8', (2,)), ('int16', ())]],
+                  timeout=T * 2, replay='replay_ragged', sym='l1..lK, m, k1, k2, q, probe',
+                  bounds='small index types with UNBOUNDED appended lengths: either every index fits and the result is '
+                         'well-formed, or the call must not complete'))
     obs.append(Ob('R-iterappend', 'h_append',
                   splits=[dict(K=K, F=2, numtype=nt, bo=bo, atom=at, via='iterappend',
                                forms=('same', 'list'), mode=mode)
